@@ -20,7 +20,7 @@ M = [
  ("smc-complete-header-type-2", "src/stgutg/ue.go", "nas.SecurityHeaderTypeIntegrityProtectedAndCipheredWithNew5gNasSecurityContext,\n		true,\n		true)", "nas.SecurityHeaderTypeIntegrityProtectedAndCiphered,\n		true,\n		true)", ["C01"]),
  ("snname-no-zero-pad", "src/stgutg/ue.go", 'snName = "5G:mnc0" + mnc', 'snName = "5G:mnc" + mnc', ["C01"]),
  ("psi-hardcoded-in-setup-response", "src/tglib/ngapTestpacket/build.go", None, None, []),
- ("min-clamp-removed", "stg-utg.go", "	pdu_release_number := stgutg.Min(pdu_establishment_number,\n		c.Configuration.Test_ue_pdu_release)", "	pdu_release_number := c.Configuration.Test_ue_pdu_release", ["C02"]),
+ ("min-clamp-removed", "stg-utg.go", "		pdu_release_number := stgutg.Min(pdu_establishment_number,\n			c.Configuration.Test_ue_pdu_release)", "		pdu_release_number := c.Configuration.Test_ue_pdu_release", ["C02"]),
  ("release-loop-index0", "stg-utg.go", "			stgutg.ReleasePDU(c.Configuration.SST,\n				c.Configuration.SD,\n				ueList[i],\n				conn)", "			stgutg.ReleasePDU(c.Configuration.SST,\n				c.Configuration.SD,\n				ueList[0],\n				conn)", ["C02"]),
  ("service-resets-ulcount", "src/stgutg/service.go", "	pdu = nasTestpacket.GetServiceRequest(nasMessage.ServiceTypeData)\n", "	pdu = nasTestpacket.GetServiceRequest(nasMessage.ServiceTypeData)\n	ue.ULCount.Set(0, 0)\n", ["C02"]),
  ("teid-plus-one", "src/stgutg/pdu.go", "			teid = binary.BigEndian.Uint32(UPTransportLayerInfo[UPTrasportLayerInfoLength-4:])", "			teid = binary.BigEndian.Uint32(UPTransportLayerInfo[UPTrasportLayerInfoLength-4:]) + 1", ["C12", "C02"]),
@@ -44,7 +44,7 @@ M = [
  ("dl-overflow-ge", "src/tglib/security.go", "		if ue.DLCount.SQN() > sequenceNumber {", "		if ue.DLCount.SQN() >= sequenceNumber {", ["C10"]),
  ("dl-no-reset-type3", "src/tglib/security.go", "		if securityHeaderType == nas.SecurityHeaderTypeIntegrityProtectedWithNew5gNasSecurityContext ||\n			securityHeaderType == nas.SecurityHeaderTypeIntegrityProtectedAndCipheredWithNew5gNasSecurityContext {\n			ue.DLCount.Set(0, 0)", "		if securityHeaderType == nas.SecurityHeaderTypeIntegrityProtectedAndCipheredWithNew5gNasSecurityContext {\n			ue.DLCount.Set(0, 0)", ["C10"]),
  # C08 / C09
- ("nas-iei-constant", "src/free5gclib/nas/nasMessage/NAS_RegistrationAccept.go", "RegistrationAcceptT3512ValueType                                    uint8 = 0x5E", "RegistrationAcceptT3512ValueType                                    uint8 = 0x5D", ["C09"]),
+ ("nas-iei-constant", "src/free5gclib/nas/nasMessage/NAS_RegistrationAccept.go", "RegistrationAcceptT3512ValueType                               uint8 = 0x5E", "RegistrationAcceptT3512ValueType                               uint8 = 0x5D", ["C09"]),
  ("nas-msgtype-swap", "src/free5gclib/nas/nas.go", "	MsgTypeServiceReject                                    uint8 = 77\n	MsgTypeServiceAccept                                    uint8 = 78", "	MsgTypeServiceReject                                    uint8 = 78\n	MsgTypeServiceAccept                                    uint8 = 77", ["C09"]),
  # C11 / C16 / C17
  ("suci-odd-filler-low", "src/stgutg/utils.go", "			suci.Buffer[j] = 0xf<<4 | hexCharToByte(msin[i])", "			suci.Buffer[j] = hexCharToByte(msin[i])<<4 | 0xf", ["C11", "C01"]),
@@ -75,7 +75,7 @@ def main():
     results = []
     try:
         for name, f, old, new, checks in M:
-            if old is None or (flt and flt not in name):
+            if old is None or (flt and not any(f in name for f in flt.split(","))):
                 continue
             path = os.path.join(WT, f)
             src = open(path).read()
@@ -106,7 +106,11 @@ def main():
             open(path, "w").write(src)
     finally:
         sh(f"git -C /repo worktree remove --force {WT}")
-    json.dump(results, open(os.path.join(VERIF, "seeded", "hand_mutants_result.json"), "w"), indent=1)
+    path = os.path.join(VERIF, "seeded", "hand_mutants_result.json")
+    old = {r["mutant"]: r for r in (json.load(open(path)) if os.path.exists(path) else [])}
+    for r in results:
+        old[r["mutant"]] = r
+    json.dump(list(old.values()), open(path, "w"), indent=1)
 
 if __name__ == "__main__":
     main()
